@@ -7,6 +7,7 @@ package jsonata
 import (
 	"encoding/json"
 	"fmt"
+	"math"
 	"reflect"
 	"regexp"
 	"strings"
@@ -831,7 +832,7 @@ func (f *transformationCallable) updateEntries(item reflect.Value) error {
 	for i, key := range keys {
 		v := updates.MapIndex(key)
 		if v.CanInterface() {
-			if c := copyContainers(v.Interface()); c != nil {
+			if c, ok := copyJSONValue(v.Interface(), 0); ok && c != nil {
 				v = reflect.ValueOf(c)
 			}
 		}
@@ -843,28 +844,6 @@ func (f *transformationCallable) updateEntries(item reflect.Value) error {
 	}
 
 	return nil
-}
-
-// copyContainers returns a copy of a JSON-like value in
-// which the objects and arrays are new and all other values
-// are the original ones.
-func copyContainers(v interface{}) interface{} {
-	switch v := v.(type) {
-	case map[string]interface{}:
-		m := make(map[string]interface{}, len(v))
-		for key, value := range v {
-			m[key] = copyContainers(value)
-		}
-		return m
-	case []interface{}:
-		s := make([]interface{}, len(v))
-		for i, value := range v {
-			s[i] = copyContainers(value)
-		}
-		return s
-	default:
-		return v
-	}
 }
 
 func (f *transformationCallable) deleteEntries(item reflect.Value) error {
@@ -950,16 +929,60 @@ func copyJSONValue(v interface{}, depth int) (interface{}, bool) {
 			s[i] = c
 		}
 		return s, true
-	case nil, string, float64, bool, *interface{}, jtypes.Callable:
+	case float64:
+		// (NaN and the infinities are for the JSON encoder
+		// to reject.)
+		return v, !math.IsNaN(v) && !math.IsInf(v, 0)
+	case nil, string, bool, *interface{}, jtypes.Callable:
 		return v, true
 	}
 
-	switch reflect.ValueOf(v).Kind() {
-	case reflect.Map, reflect.Slice, reflect.Array, reflect.Struct,
-		reflect.Ptr, reflect.Interface, reflect.Func, reflect.Chan:
-		return nil, false
+	switch rv := reflect.ValueOf(v); rv.Kind() {
+	case reflect.Slice, reflect.Array:
+		// Arrays of other types (library functions return
+		// []string and []map[string]interface{}, for example)
+		// are copied into the general form.
+		s := make([]interface{}, rv.Len())
+		for i := range s {
+			item := rv.Index(i)
+			if !item.CanInterface() {
+				return nil, false
+			}
+			c, ok := copyJSONValue(item.Interface(), depth+1)
+			if !ok {
+				return nil, false
+			}
+			s[i] = c
+		}
+		return s, true
+	case reflect.Map:
+		if rv.Type().Key().Kind() != reflect.String {
+			return nil, false
+		}
+		m := make(map[string]interface{}, rv.Len())
+		for _, key := range rv.MapKeys() {
+			value := rv.MapIndex(key)
+			if !value.CanInterface() {
+				return nil, false
+			}
+			c, ok := copyJSONValue(value.Interface(), depth+1)
+			if !ok {
+				return nil, false
+			}
+			m[key.String()] = c
+		}
+		return m, true
+	case reflect.Int, reflect.Int8, reflect.Int16, reflect.Int32, reflect.Int64:
+		// Like the JSON round trip, the copy has float64s.
+		return float64(rv.Int()), true
+	case reflect.Uint, reflect.Uint8, reflect.Uint16, reflect.Uint32, reflect.Uint64:
+		return float64(rv.Uint()), true
+	case reflect.Float32:
+		return copyJSONValue(rv.Float(), depth)
 	default:
-		return v, true
+		// Structs and pointers are normalised by the JSON
+		// round trip.
+		return nil, false
 	}
 }
 
